@@ -706,6 +706,7 @@ myth_thread_t myth_wsapi_runqueue_take(int victim,
   q = &g_envs[victim].runnable_q;
   wc = &q->wc;
 #if QUICK_CHECK_ON_STEAL
+  MYTH_VERIF_POINT(mythv_p_q_take_check, q->top);
   if (q->top-q->base<=0){
     return NULL;
   }
@@ -723,10 +724,13 @@ myth_thread_t myth_wsapi_runqueue_take(int victim,
 #endif
   //Increment base
   b=q->base;
+  MYTH_VERIF_POINT(mythv_p_q_take_inc, q->base);
   q->base=b+1;
   myth_wsqueue_rwbarrier();
+  MYTH_VERIF_POINT(mythv_p_q_take_top, q->top);
   top=q->top;
   if (b<top){
+    MYTH_VERIF_POINT(mythv_p_q_take_slot, q->ptr[b]);
     ret=q->ptr[b];
     if ((!decidefn) || decidefn(ret,udata)){
       //q->ptr[b]=NULL;
@@ -750,6 +754,7 @@ myth_thread_t myth_wsapi_runqueue_take(int victim,
     }
     myth_wsqueue_wbarrier();
   }
+  MYTH_VERIF_POINT(mythv_p_q_take_rollback, q->base);
   q->base=b;
   myth_wsqueue_lock_unlock(&q->lock);
 #if USE_LOCK || USE_LOCK_TAKE
@@ -766,6 +771,7 @@ myth_thread_t myth_wsapi_runqueue_peek(int victim,void *ptr,size_t *psize) {
   wc=&q->wc;
  start:;
   //runqueue empty?
+  MYTH_VERIF_POINT(mythv_p_q_peek, q->top);
   if (q->top-q->base<=0){
     //empty,return NULL
     return NULL;
@@ -784,8 +790,10 @@ myth_thread_t myth_wsapi_runqueue_peek(int victim,void *ptr,size_t *psize) {
     if (!wc->ptr){
       //Increment base
       b=q->base;
+      MYTH_VERIF_POINT(mythv_p_q_take_inc, q->base);
       q->base=b+1;
       myth_wsqueue_rwbarrier();
+      MYTH_VERIF_POINT(mythv_p_q_take_top, q->top);
       top=q->top;
       if (b<top){
 	//fprintf(stderr,"%d cache update\n",victim);
@@ -809,6 +817,7 @@ myth_thread_t myth_wsapi_runqueue_peek(int victim,void *ptr,size_t *psize) {
 	myth_wsqueue_wbarrier();
       }
       //Restore b
+      MYTH_VERIF_POINT(mythv_p_q_take_rollback, q->base);
       q->base=b;
     }
     //Release lock
@@ -819,6 +828,7 @@ myth_thread_t myth_wsapi_runqueue_peek(int victim,void *ptr,size_t *psize) {
   int s0,s1;
   myth_thread_t ret;
   do{
+    MYTH_VERIF_POINT(mythv_p_q_peek, wc->seq);
     s0=wc->seq;
     myth_wsqueue_rbarrier();
     //Copy date from cache
